@@ -12,7 +12,7 @@ from __future__ import annotations
 from typing import Any
 
 from .. import gen, history
-from ..core import Stream
+from ..core import Outcome, Stream
 
 LEVEL = "exploration"
 RULE = (
@@ -45,7 +45,10 @@ def config_strategy():
             k = draw(st.integers(1, 3))
             src = g["shapes"][draw(st.integers(0, len(g["shapes"]) - 1))]
             for _ in range(k):
-                g["shapes"].insert(draw(st.integers(0, len(g["shapes"]))), list(src))
+                at = draw(st.integers(0, len(g["shapes"])))
+                g["shapes"].insert(at, list(src))
+                if g.get("pdtypes"):
+                    g["pdtypes"].insert(at, draw(st.sampled_from(g["pdtypes"])))
         return c
 
     return config()
@@ -61,12 +64,25 @@ def step_strategy(runner: Runner):
     @st.composite
     def step(draw: Any) -> dict:
         s = draw(gen.st_step(n, gscale, edits=True))
-        mode = draw(st.sampled_from(["stay", "flip", "flip", "random", "random", "none", "all"]))
+        mode = draw(st.sampled_from(["stay", "flip", "flip", "random", "random", "none", "all", "swap", "flip_high"]))
+        shapes = [tuple(x) for g in runner.groups for x in g["shapes"]]
         if mode == "stay" and prev is not None:
             mask = list(prev)
         elif mode == "flip" and prev is not None:
             mask = list(prev)
             i = draw(st.integers(0, n - 1))
+            mask[i] = not mask[i]
+        elif mode == "swap" and prev is not None:
+            # two equal-shaped parameters exchange roles: the number (and the shapes) of active blocks stay the same
+            mask = list(prev)
+            pairs = [(i, j) for i in range(n) for j in range(i + 1, n) if shapes[i] == shapes[j] and mask[i] != mask[j]]
+            if pairs:
+                i, j = pairs[draw(st.integers(0, len(pairs) - 1))]
+                mask[i], mask[j] = mask[j], mask[i]
+        elif mode == "flip_high" and prev is not None:
+            # a change confined to the last parameters of a group
+            mask = list(prev)
+            i = n - 1 - draw(st.integers(0, min(n - 1, 3)))
             mask[i] = not mask[i]
         elif mode == "none":
             mask = [False] * n
@@ -88,7 +104,13 @@ class ManyBlocksRunner(Runner):
         super().__init__(config, check_reference=False)
 
     def nontrivial_rule(self) -> bool:
-        return self.stats["mask_changes"] >= 1 and self.stats["blocks"] > 256
+        return self.stats["mask_changes"] >= 1 and (self.stats["blocks"] > 256 or sum(len(g["shapes"]) for g in self.groups) > 64)
+
+    def finish(self):
+        out = super().finish()
+        if sum(len(g["shapes"]) for g in self.groups) > 64:
+            out.classes.append("more_than_64_parameters_in_group")
+        return out
 
 
 def config_strategy_many():
@@ -100,15 +122,92 @@ def config_strategy_many():
         cfg["mpd"] = draw(st.sampled_from([1, 2, 2, 3]))
         cfg["merge"] = False
         cfg["epsilon"] = 1e-3
-        big = draw(st.sampled_from([[130, 2], [260, 2], [300], [17, 16], [9, 8, 4], [66, 4], [520]]))
+        layout = draw(st.sampled_from(["one_big", "one_big", "two_big_equal", "many_params", "many_params"]))
         small = draw(st.sampled_from([[2, 2], [2], [3, 2]]))
-        n_small = draw(st.integers(2, 4))
-        shapes = [big] + [list(small) for _ in range(n_small)]
-        if draw(st.booleans()):
-            shapes.insert(draw(st.integers(0, len(shapes))), draw(st.sampled_from([[70, 2], [40, 3], [65]])))
+        if layout == "many_params":
+            # more parameter tensors in one group than fit a machine word (66-140 tiny equal-shaped parameters)
+            shapes = [list(small) for _ in range(draw(st.sampled_from([66, 70, 100, 130, 140])))]
+            cfg["mpd"] = max(cfg["mpd"], 3)
+        else:
+            big = draw(st.sampled_from([[130, 2], [260, 2], [300], [17, 16], [9, 8, 4], [66, 4], [520]]))
+            n_small = draw(st.integers(2, 4))
+            shapes = [big] + [list(small) for _ in range(n_small)]
+            if layout == "two_big_equal":
+                shapes.insert(draw(st.integers(0, len(shapes))), list(big))  # two equal, heavily blocked layers that can swap roles
+            elif draw(st.booleans()):
+                shapes.insert(draw(st.integers(0, len(shapes))), draw(st.sampled_from([[70, 2], [40, 3], [65]])))
         return {"groups": [{"cfg": cfg, "shapes": shapes}], "pseed": draw(st.integers(0, 10**5))}
 
     return config()
+
+
+# --------------------------------------------------------------------------- marathon: > 1000 presence changes, every step checked
+MARATHON_N_QUICK = [1003, 1030, 1100, 1290, 2051]
+MARATHON_N_THOROUGH = [4100, 4100, 8200, 16400]
+
+
+def _marathon_strategy(lengths: list):
+    from hypothesis import strategies as st
+
+    @st.composite
+    def case(draw: Any) -> dict:
+        c = draw(history.st_history_config(max_groups=1, max_params=2, max_numel=8, solvers=("eigen",), kinds=("shampoo", "shampoo", "soap"),
+                                           dtypes=(("f32", "f32"), ("f64", "f64"), ("f32", "f64")), mixed_dtypes=False, lr_tensor=False))
+        c.pop("gbias", None)
+        g = c["groups"][0]
+        g["cfg"]["gscale"] = 1.0
+        g["shapes"] = [list(g["shapes"][0]) for _ in range(draw(st.integers(2, 3)))] + g["shapes"][1:]
+        cfg = g["cfg"]
+        cfg["lr"] = draw(st.sampled_from([0.0009765625, 0.00048828125]))
+        cfg["epsilon"] = max(cfg["epsilon"], 1e-8)
+        cfg["freq"] = draw(st.sampled_from([1, 7, 50, 50]))
+        cfg["start"] = draw(st.sampled_from([-1, -1, 1500, 300]))
+        if cfg["start"] != -1 and cfg["start"] < cfg["freq"]:
+            cfg["start"] = cfg["freq"]
+        n = len(g["shapes"])
+        L = draw(st.integers(2, 4))
+        cycle = [[draw(st.booleans()) for _ in range(n)] for _ in range(L)]
+        # consecutive masks of the cycle differ, every mask has a gradient, equal-shaped parameters are partially masked
+        cycle[0] = [True, False] + cycle[0][2:]
+        cycle[1] = [False, True] + cycle[1][2:]
+        for i in range(2, L):
+            if cycle[i] == cycle[i - 1] or not any(cycle[i]):
+                cycle[i] = [not x for x in cycle[i - 1]]
+                if not any(cycle[i]):
+                    cycle[i][0] = True
+        if cycle[-1] == cycle[0]:
+            cycle.append([not x for x in cycle[0]])
+            if not any(cycle[-1]):
+                cycle[-1][-1] = True
+        return {"config": c, "cycle": cycle, "N": draw(st.sampled_from(lengths)), "seed": draw(st.integers(0, 10**5)),
+                "edit_every": draw(st.sampled_from([0, 0, 97, 333]))}
+
+    return case()
+
+
+def marathon_oracle(case: dict):
+    """More than a thousand consecutive changes of the gradient-presence pattern on a tiny model; every step is checked like in the history stream
+    (untouched parameters bitwise, step counter, every present block against the one-step-ahead reference from its own buffers)."""
+    R = Runner(case["config"])
+    if R.failed_construct:
+        R.out.failures.append(R.failed_construct)
+        return R.out
+    cyc, N = case["cycle"], case["N"]
+    for i in range(N):
+        s = {"mask": cyc[i % len(cyc)], "gseed": case["seed"] + i, "gkind": "gauss", "gscale": 1.0}
+        if case["edit_every"] and i and i % case["edit_every"] == 0:
+            s["edits"] = {"lr": [0.0009765625, 0.00048828125, 0.001953125][(i // case["edit_every"]) % 3]}
+        fails = R.step(s)
+        if fails:
+            R.out.failures.extend(fails)
+            break
+        if R.dead:
+            break
+    out = R.finish()
+    out.nontrivial = R.stats["mask_changes"] >= 1000 and R.stats["equal_shape_partial_mask"] >= 1000
+    out.classes.append(f"presence_changes_{'>=4096' if R.stats['mask_changes'] >= 4096 else ('>=2048' if R.stats['mask_changes'] >= 2048 else ('>=1000' if R.stats['mask_changes'] >= 1000 else '<1000'))}")
+    out.sub_evaluations = R.nsteps
+    return out
 
 
 STREAMS = {
@@ -116,4 +215,6 @@ STREAMS = {
                       max_steps=15, max_steps_thorough=30),
     "many_blocks": Stream("many_blocks", machine=(config_strategy_many, step_strategy, ManyBlocksRunner), quick=160, thorough=4000, shards_quick=16, shards_thorough=16,
                           max_steps=8, max_steps_thorough=12),
+    "marathon": Stream("marathon", oracle=marathon_oracle, strategy=lambda: _marathon_strategy(MARATHON_N_QUICK), quick=32, thorough=480, shards_quick=8, shards_thorough=16),
+    "marathon_long": Stream("marathon_long", oracle=marathon_oracle, strategy=lambda: _marathon_strategy(MARATHON_N_THOROUGH), quick=0, thorough=96, shards_quick=16, shards_thorough=16),
 }
